@@ -27,7 +27,7 @@ pub fn max_prefix(v: &[Block], deco: &Deco) -> usize {
     fn go(v: &[Block], ul: usize, quote: usize, dd: usize, h: &dyn Fn(usize) -> usize, ol: &dyn Fn(i64) -> usize) -> usize {
         v.iter()
             .map(|b| match b {
-                Block::Div(_, x) => go(x, ul, quote, dd, h, ol),
+                Block::Div(_, x) | Block::Wrap(_, _, x) => go(x, ul, quote, dd, h, ol),
                 Block::Quote(_, x) => quote + go(x, ul, quote, dd, h, ol),
                 Block::Ul(_, i) => ul + i.iter().map(|x| go(&x.kids, ul, quote, dd, h, ol)).max().unwrap_or(0),
                 Block::Ol(_, st, i) => {
